@@ -187,6 +187,58 @@ def unit(item):
             if abs(ll[pos] - sl) > 1e-4:
                 p.violation(sig(pkey, skey, "log_likelihood", f"batch_size=={B}"), rec, f"{pkey} x {skey}: instance {insts[i][0]}: log-likelihood {sl} alone vs {ll[pos]} at position {pos} of batch {[insts[j][0] for j in arr]}")
             p.outcome(f"{pkey}|{skey}|{tuple(sa)}")
+    # forced sequences: EVERY complete episode of an instance (incl. ones that finish early although more could be done,
+    # which a given set of weights rarely decodes by itself), evaluated (actions supplied) once next to equally long
+    # episodes of the same instance and once inside a batch whose other rows run longer, padded with the action a
+    # finished row is offered.  Reward and log-likelihood must not depend on the padding.
+    if flags.get("base") and not flags.get("no_forced"):
+        for i in range(min(2, n)):
+            iid, inst, td0 = insts[i]
+            tree = E.explore(env, td0)
+            if tree.capped or not tree.leaves or len(tree.leaves) > 400 or tree.crashes:
+                continue
+            lens = sorted({len(h) for h in tree.leaves})
+            if len(lens) < 2:
+                continue
+            by_hist = {nd.hist: nd for nd in tree.nodes}
+            ref_ll = {}
+            try:
+                for L in lens:
+                    seqs = [h for h in tree.leaves if len(h) == L]
+                    td = env.reset(torch.cat([td0] * len(seqs), 0))
+                    E._set_bs(env, len(seqs))
+                    with torch.no_grad(), Seam(tile_rows=True).active():
+                        o = pol(td, env, phase="test", actions=torch.tensor([list(h) for h in seqs]), calc_reward=True)
+                    for h, l_, r_ in zip(seqs, o["log_likelihood"].tolist(), o["reward"].tolist()):
+                        ref_ll[h] = (l_, r_)
+                T = lens[-1]
+                seqs = list(tree.leaves)
+                padded = []
+                for h in seqs:
+                    offered = [a for a, m in enumerate(by_hist[h].mask) if m]
+                    if not offered:
+                        padded = None
+                        break
+                    padded.append(list(h) + [offered[0]] * (T - len(h)))
+                if padded is None:
+                    continue
+                td = env.reset(torch.cat([td0] * len(seqs), 0))
+                E._set_bs(env, len(seqs))
+                with torch.no_grad(), Seam(tile_rows=True).active():
+                    o = pol(td, env, phase="test", actions=torch.tensor(padded), calc_reward=True)
+            except Exception as e:  # noqa: BLE001
+                p.note(f"{pkey} x {skey}: forced-sequence evaluation not runnable ({type(e).__name__}: {str(e)[:80]})")
+                continue
+            p.add(states=1, evaluations=len(seqs), transitions=len(seqs) * T)
+            for h, l_, r_ in zip(seqs, o["log_likelihood"].tolist(), o["reward"].tolist()):
+                sl, sr = ref_ll[h]
+                if abs(l_ - sl) > 1e-4 or abs(r_ - sr) > TOL * (1 + abs(sr)):
+                    p.violation(
+                        sig(pkey, skey, "log_likelihood" if abs(l_ - sl) > 1e-4 else "reward", "forced_sequence_padded"),
+                        dict(kind="c14_forced", policy=pkey, spec=skey, wseed=wseed, instance_id=iid, instance=inst, actions=list(h), pad_to=T),
+                        f"{pkey} x {skey}: instance {iid}, forced episode {list(h)}: log-likelihood / reward {sl:.6f} / {sr} among equally long episodes, but {l_:.6f} / {r_} when padded to {T} steps by longer batch-mates",
+                    )
+                    break
     # multi-start factorisations
     if flags.get("base") and not flags.get("no_multistart"):
         ref = {}
@@ -240,6 +292,23 @@ def main(tier):
 
 def replay(rec):
     spec = spec_of(rec["spec"])
+    if rec.get("kind") == "c14_forced":
+        inst = rec["instance"]
+        env = spec.env(inst)
+        td0 = spec.td(inst)
+        pol = make(rec["policy"], env, rec["wseed"])
+        h = rec["actions"]
+        tdf, masks, dones = E.run_solo(env, td0, h)
+        offered = [a for a, m in enumerate(masks[-1]) if m]
+        outs = []
+        for acts in (h, h + [offered[0]] * (rec["pad_to"] - len(h))):
+            td = env.reset(td0.clone())
+            E._set_bs(env, 1)
+            with torch.no_grad(), Seam(tile_rows=True).active():
+                o = pol(td, env, phase="test", actions=torch.tensor([acts]), calc_reward=True)
+            outs.append((float(o["log_likelihood"][0]), float(o["reward"][0])))
+        diff = abs(outs[0][0] - outs[1][0]) > 1e-4 or abs(outs[0][1] - outs[1][1]) > TOL * (1 + abs(outs[0][1]))
+        return diff, f"episode {h}: (log-likelihood, reward) {outs[0]} unpadded vs {outs[1]} padded to {rec['pad_to']} steps"
     flags = next(f for pk, sk, f in PAIRS + EXTRA_PAIRS if pk == rec["policy"] and sk == rec["spec"])
     insts = [(d["instance_id"], d["instance"], spec.td(d["instance"])) for d in rec["instances"]]
     env = spec.env(insts[0][1])
